@@ -266,3 +266,8 @@ N.append({'id': 'cxx-rename-all-locals-and-params', 'generator': 'rename-cxx-loc
 # part of the interface): 445 names; tested the same way (59303 passed)
 N.append({'id': 'py-rename-locals-and-posonly-params', 'generator': 'rename-python-locals', 'posonly': True,
           'file': None, 'edits': []})
+
+# generated: a no-op statement at the start of every function body, before every return / raise
+# (Python: `pass`, 602 sites) and after every `{` that opens a function body, a branch, a loop body
+# or a case arm (C++: `(void)0;`, 680 sites); built and tested (32062 passed)
+N.append({'id': 'noop-statements-everywhere', 'generator': 'insert-noops', 'file': None, 'edits': []})
